@@ -8,7 +8,10 @@
 //!   `wire slice <accessor> <hexbuf>`, `wire errmap <path> <call> <errkind>`.
 //!
 //! Oracles (Rust, independent of the Lean model; `wire_enc.rs`):
-//!   `c11-*`  an RFC decoder over the captured socket calls of every successful dispatch;
+//!   `c11-*`  an RFC decoder over the captured socket calls of every successful dispatch
+//!            (`c11-udp6-zero-checksum`: a UDP/IPv6 datagram with checksum field 0, RFC 8200 §8.1;
+//!            the description reads `<request line> [paris sequence=0]` for the Paris strategy,
+//!            whose checksum field is the sequence by design);
 //!   `c02-*`  a genuine quotation of a dispatched probe is decoded to a response that the strategy
 //!            accepts and whose recovered sequence is the probe's; a foreign one is not accepted;
 //!            `c02-e2e*`: the same through the real `Strategy` (the probe's slot becomes Complete);
@@ -127,11 +130,7 @@ pub fn op_send(run: &mut Run, cfg: &WCfg, p: &Probe, cell: Option<&Cell>) -> Opt
             let ops = simsock::take_ops();
             let sent = parse_ops(&ops);
             for (k, m) in c11_check(cfg, p, cell, &sent) {
-                if k.starts_with("obs-") {
-                    run.count(k);
-                } else {
-                    run.fail(k, format!("{req} [{m}]"));
-                }
+                run.fail(k, format!("{req} [{m}]"));
             }
             run.count("c11-checked");
             run.op(req, format!("ok {}", ops.join(";")));
